@@ -296,7 +296,25 @@ def flatten_cause(exc):
     return [exc]
 
 
+def _who_key(who):
+    """the scripted payload / service behind the `who` of an OrphanedReturn (a function named payload_<n>, a
+    functools.partial of one, or the bound `run` of a scripted service)"""
+    import functools
+    while isinstance(who, functools.partial):
+        who = who.func
+    name = getattr(who, "__name__", "")
+    if name.startswith("payload_") and name[8:].isdigit():
+        return ("p", int(name[8:]))
+    inst = getattr(who, "__self__", None)
+    if inst is not None and hasattr(inst, "sid"):
+        return ("s", inst.sid)
+    return None
+
+
 def describe_leaf(e):
+    # several payloads may have returned the very same (interned) object, e.g. 0 or "" in two runs: the error
+    # names its payload (`who`); failing that, the payload that finished last is meant
+    found = None
     for key, obj in list(PAYLOAD_OBJ.items()):
         pre = "" if key[0] == "p" else "svc_"
         if e is obj:
@@ -304,7 +322,11 @@ def describe_leaf(e):
         if isinstance(obj, BaseExceptionGroup) and any(e is x for x in flatten_cause(obj)):
             return [pre + "exc", key[1]]
         if isinstance(e, OrphanedReturn) and e.value is obj:
-            return [pre + "orphan", key[1]]
+            if _who_key(getattr(e, "who", None)) == key:
+                return [pre + "orphan", key[1]]
+            found = [pre + "orphan", key[1]]
+    if found:
+        return found
     if isinstance(e, OrphanedReturn):
         return ["orphan_unknown", repr(e.value)[:40]]
     return ["other", type(e).__name__]
